@@ -53,6 +53,18 @@ def h_roundtrip(ctx, n, twin=False):
     ush = PusTcDataFieldHeader.unpack(ctx.bytes_of(ref[6:11]))
     ctx.holds("sec header unpack", sym_and(ush.service == svc, ush.subservice == sub, ush.source_id == src,
                                           ush.ack_flags == ack))
+    # application data handed over as a bytearray (as unpack() of a bytearray does): views and packs in any order
+    mdata = ctx.bytes_of(items_of(data), mutable=True)
+    t2 = PusTc(svc, sub, apid, mdata, sc, src, ack)
+    v1 = t2.to_space_packet().pack()
+    v2 = t2.to_space_packet().pack()
+    ctx.holds("space packet view (bytearray data), twice, then pack: all the same octets",
+              sym_and(v1 == raw, v2 == raw, t2.pack() == raw, t2.packet_len == total, t2 == t))
+    ctx.holds("caller's application data buffer untouched", sym_and(len(mdata) == n, mdata == data))
+    e, u2 = call(PusTc.unpack, ctx.bytes_of(items_of(raw), mutable=True))
+    ctx.holds("unpack of a bytearray: view then pack reproduces the octets", e is None and sym_and(
+        u2.to_space_packet().pack() == raw, u2.pack() == raw, u2 == t), exc_name(e))
+    pack_hands_out_fresh_buffers(ctx, t.pack, refb)
     if twin:
         ctx.holds("twin", raw != refb)
 
